@@ -7,8 +7,8 @@
     non-exact branch pattern match every document), [q] over ALL query trees, [d] over all
     documents. *)
 From ZV Require Import Lib.Base Model.Query Model.QueryStd.
-From ZV Require Import Proofs.QueryInd Proofs.QuerySimplify Proofs.QueryShard Proofs.QueryTerm Proofs.QueryStdOk Proofs.QueryKinds.
-From ZV Require Import Generated.C05QKinds.
+From ZV Require Import Proofs.QueryInd Proofs.QuerySimplify Proofs.QueryShard Proofs.QueryTerm Proofs.QueryStdOk Proofs.QueryKinds Proofs.QueryRawConfig.
+From ZV Require Import Generated.C05QKinds Generated.C05RawConfig.
 
 (** constant folding (evalConstants, evalAndOrConstants, invertConst) *)
 Theorem C05_evalConstants_preserves :
@@ -94,6 +94,39 @@ Theorem C05_tie_model_covers_go_query_kinds :
 Proof. split; [exact go_kinds_covered_by_model | exact model_kinds_exist_in_go]. Qed.
 Print Assumptions C05_tie_model_covers_go_query_kinds.
 
+(** encodeRawConfig (index/indexdata.go) is part of the model: the per-shard theorems above evaluate
+    query.RawConfig atoms on [encodeRawConfig (r_rawconfig r)].  What the atoms then mean in terms of the
+    repository's RawConfig map: each flag tests one of the fields public / fork / archived for the value "1"
+    (Only...) or for anything else incl. absence (No.../Private); a mask of several flags is their conjunction. *)
+Theorem C05_rawconfig_flags_meaning : forall cfg,
+  let rc := encodeRawConfig cfg in
+  rc_match RcOnlyPublic rc = has_one cfg f_public /\
+  rc_match RcOnlyPrivate rc = negb (has_one cfg f_public) /\
+  rc_match RcOnlyForks rc = has_one cfg f_fork /\
+  rc_match RcNoForks rc = negb (has_one cfg f_fork) /\
+  rc_match RcOnlyArchived rc = has_one cfg f_archived /\
+  rc_match RcNoArchived rc = negb (has_one cfg f_archived).
+Proof. exact rawconfig_flags_meaning. Qed.
+Print Assumptions C05_rawconfig_flags_meaning.
+
+Theorem C05_rawconfig_mask_is_conjunction : forall m1 m2 rc,
+  rc_match (N.lor m1 m2) rc = rc_match m1 rc && rc_match m2 rc.
+Proof. exact rc_match_lor. Qed.
+Print Assumptions C05_rawconfig_mask_is_conjunction.
+
+Theorem C05_encodeRawConfig_fits_uint8 : forall cfg, (encodeRawConfig cfg < 64)%N.
+Proof. exact encodeRawConfig_lt_64. Qed.
+Print Assumptions C05_encodeRawConfig_fits_uint8.
+
+(** Tie: the field list, the yes/no codes of encodeRawConfig and the six query.Rc* constants are
+    re-extracted from /repo/index/indexdata.go and /repo/query/query.go on each run
+    (Generated/C05RawConfig.v) and must equal the model's. *)
+Theorem C05_rawconfig_tables_generated :
+  c05_go_rc_fields = rc_fields /\ c05_go_rc_yes = rawConfigYes /\ c05_go_rc_no = rawConfigNo /\ c05_go_rc_one = rc_one /\
+  c05_go_rc_flags = [RcOnlyPublic; RcOnlyPrivate; RcOnlyForks; RcNoForks; RcOnlyArchived; RcNoArchived].
+Proof. repeat split; reflexivity. Qed.
+Print Assumptions C05_rawconfig_tables_generated.
+
 (** ---------------------------------------------------------------- non-vacuity *)
 
 (** the hypotheses are satisfied by the concrete reference semantics (substring search, any regexp
@@ -108,8 +141,8 @@ Definition ex_doc : cdoc :=
   {| cd_repo := 1; cd_name := [97; 46; 103; 111]%N; cd_content := ex_foo ++ [32]%N ++ ex_main;
      cd_branch0 := ex_main; cd_branches := []; cd_lang := [71; 111]%N |}.
 Definition ex_shard : shard :=
-  {| sh_repos := [ {| r_tomb := true; r_id := 1; r_name := ex_main; r_rc := 42; r_meta := [] |};
-                   {| r_tomb := false; r_id := 2; r_name := ex_foo; r_rc := 21; r_meta := [] |} ];
+  {| sh_repos := [ {| r_tomb := true; r_id := 1; r_name := ex_main; r_rawconfig := [(f_public, rc_one)]; r_meta := [] |};
+                   {| r_tomb := false; r_id := 2; r_name := ex_foo; r_rawconfig := [(f_fork, rc_one); (f_archived, [48%N])]; r_meta := [] |} ];
      sh_langs := [[71; 111]%N] |}.
 Definition ex_tomb_doc : cdoc :=
   {| cd_repo := 0; cd_name := []; cd_content := []; cd_branch0 := ex_main; cd_branches := []; cd_lang := [71; 111]%N |}.
@@ -134,11 +167,20 @@ Example C05_ex_shard :
   eval (shard_atoms ex_re (std_atoms ex_rx) ex_shard cd_repo) (QAnd [QRepo ex_foo; QSubstring ex_main false false false]) ex_doc = true.
 Proof.
   split; [|split; [|split]].
-  - exists {| r_tomb := false; r_id := 2; r_name := ex_foo; r_rc := 21; r_meta := [] |}. split; reflexivity.
+  - exists {| r_tomb := false; r_id := 2; r_name := ex_foo; r_rawconfig := [(f_fork, rc_one); (f_archived, [48%N])]; r_meta := [] |}. split; reflexivity.
   - apply std_langs_closed. reflexivity.
   - vm_compute. reflexivity.
   - vm_compute. reflexivity.
 Qed.
+
+(** RawConfig atoms on the example shard: the live repository is a fork (fork = "1"), archived = "0", public absent *)
+Example C05_ex_rawconfig :
+  encodeRawConfig [(f_fork, rc_one); (f_archived, [48%N])] = 38%N /\
+  eval (shard_atoms ex_re (std_atoms ex_rx) ex_shard cd_repo) (QRawConfig (N.lor RcOnlyForks RcNoArchived)) ex_doc = true /\
+  eval (shard_atoms ex_re (std_atoms ex_rx) ex_shard cd_repo) (QRawConfig RcOnlyPublic) ex_doc = false /\
+  shard_simplify ex_re ex_shard (QRawConfig RcOnlyForks) = QConst true /\
+  shard_simplify ex_re ex_shard (QRawConfig RcOnlyPublic) = QConst false.
+Proof. vm_compute. repeat split; reflexivity. Qed.
 
 (** the [live] hypothesis is necessary: on a document of the tombstoned repository the same
     rewrite changes the verdict (this is sound only because Search skips such documents) *)
